@@ -31,7 +31,8 @@ theorem table_guards :
     Gen.Corrupt.guardsLookup = ["err != nil", "ord == ti.count"] ∧
     Gen.Corrupt.guardsNewCompressedChunk = ["chksum != crc(compressedData)"] ∧
     Gen.Corrupt.parseTableIndexAllocatesUint32Product = true ∧
-    Gen.Corrupt.iterateDiscardsReadFullError = true ∧ Gen.Corrupt.iterateBufferIs4MiB = true ∧
+    Gen.Corrupt.iterateDiscardsReadFullError = false ∧ Gen.Corrupt.iterateReturnsReadFullError = true ∧
+    Gen.Corrupt.iterateBufferIs4MiB = true ∧
     Gen.Corrupt.iterateGrowsBuffer = true ∧
     Table.iterBufSize = 4 * 1024 * 1024 := by decide
 
@@ -50,14 +51,15 @@ theorem journal_guards :
       ["len(buf) < (journalRecLenSz + journalRecChecksumSz)", "int(off) > len(buf)", "!crcMatches"] ∧
     Gen.Corrupt.guardsReadJournalRecord = [] := by decide
 
-/-- manifest: field-count guards, and the root hash alone goes through the panicking `hash.Parse` -/
+/-- manifest: field-count guards; every hash field goes through `hash.MaybeParse` (no panicking
+`hash.Parse` is left: the root-hash repair) -/
 theorem manifest_facts :
     Gen.Corrupt.prefixLen = Manifest.prefixLen ∧ Gen.Corrupt.StringLen = Manifest.hashStringLen ∧
     Gen.Corrupt.StorageVersionBytes = [0x35] ∧ Gen.Corrupt.storageVersion4Bytes = [0x34] ∧
-    Gen.Corrupt.guardsParseV5Manifest = ["err != nil", "len(slices) < prefixLen-1 || len(slices)%2 != 0", "err != nil", "!ok", "!ok"] ∧
-    Gen.Corrupt.guardsParseV4Manifest = ["err != nil", "len(slices) < 3 || len(slices)%2 == 0", "err != nil", "!ok"] ∧
-    Gen.Corrupt.hashCallsParseV5Manifest = ["hash.MaybeParse(slices[1])", "hash.MaybeParse(slices[3])", "hash.Parse(slices[2])"] ∧
-    Gen.Corrupt.hashCallsParseV4Manifest = ["hash.MaybeParse(slices[1])", "hash.Parse(slices[2])"] := by decide
+    Gen.Corrupt.guardsParseV5Manifest = ["err != nil", "len(slices) < prefixLen-1 || len(slices)%2 != 0", "err != nil", "!ok", "!ok", "!ok"] ∧
+    Gen.Corrupt.guardsParseV4Manifest = ["err != nil", "len(slices) < 3 || len(slices)%2 == 0", "err != nil", "!ok", "!ok"] ∧
+    Gen.Corrupt.hashCallsParseV5Manifest = ["hash.MaybeParse(slices[1])", "hash.MaybeParse(slices[3])", "hash.MaybeParse(slices[2])"] ∧
+    Gen.Corrupt.hashCallsParseV4Manifest = ["hash.MaybeParse(slices[1])", "hash.MaybeParse(slices[2])"] := by decide
 
 theorem archive_facts :
     Gen.Corrupt.afrIndexLenOffset = Archive.indexLenOffset ∧ Gen.Corrupt.afrByteSpanOffset = Archive.byteSpanOffset ∧
